@@ -1,4 +1,5 @@
 import BfeVerif.C05.Proofs
+import BfeVerif.Generated.C05
 /-!
   C05 — balancer calls are total and terminate under concurrent change.
 
@@ -261,5 +262,28 @@ theorem C05_gslb_locked_hangs (g : G) (o : GOp) (h : g.locked = true) : (gStep g
 
 example : (gInit [(1, 60), (2, 40)]).map (fun g => (gRun [.reload [(1, 0), (2, 0)], .bal, .reload [(2, 5)], .other] g).1)
     = some [.ret "rej", .ret "ret", .ret "ok", .ret "ret"] := by decide
+
+/-! ### lock discipline of the whole balancing code, from the CURRENT source (regenerated facts, extract/c05.go) -/
+
+/-- **every function of bfe_balance (bal_table.go), bal_gslb, bal_slb and backend that takes a mutex releases it at
+    every way out** — each return statement, including the error returns, and the end of the body.  Together with the
+    lock-as-state model (`C05_gslb_total`: operations whose every path releases never block one another) this is the
+    for-all version of "every operation returns with the lock released". -/
+theorem C05_lock_released_on_every_exit :
+    ∀ e ∈ BfeVerif.Generated.C05.lockExits, e.2 = true := by decide
+
+/-- non-vacuity: the table really lists the functions the property is about -/
+theorem C05_lock_table_covers :
+    (["bfe_balance/bal_slb/bal_rr.go:BalanceRR.Update", "bfe_balance/bal_slb/bal_rr.go:BalanceRR.simpleBalance",
+      "bfe_balance/bal_slb/bal_rr.go:BalanceRR.smoothBalance", "bfe_balance/bal_slb/bal_rr.go:BalanceRR.stickyBalance",
+      "bfe_balance/bal_slb/bal_rr.go:BalanceRR.leastConnsSimpleBalance",
+      "bfe_balance/bal_slb/bal_rr.go:BalanceRR.leastConnsSmoothBalance",
+      "bfe_balance/bal_slb/bal_rr.go:BalanceRR.checkSlowStart",
+      "bfe_balance/bal_gslb/bal_gslb.go:BalanceGslb.Balance", "bfe_balance/bal_gslb/bal_gslb.go:BalanceGslb.Reload",
+      "bfe_balance/bal_gslb/bal_gslb.go:BalanceGslb.BackendReload",
+      "bfe_balance/bal_table.go:BalTable.BalTableReload", "bfe_balance/bal_table.go:BalTable.Lookup",
+      "bfe_balance/backend/bfe_backend.go:BfeBackend.Avail", "bfe_balance/backend/bfe_backend.go:BfeBackend.ConnNum"].all
+      fun f => BfeVerif.Generated.C05.lockExits.any fun e => e.1 == f) = true ∧
+    BfeVerif.Generated.C05.lockCount ≥ 30 := by decide
 
 end BfeVerif.C05
